@@ -147,7 +147,7 @@ for _pid, _text, _note in [
      "bounded only by design: the quantities are outputs of numerical optimisers/quadrature and the named defect class is floating-point "
      "cancellation, which does not exist over the reals"),
 ]:
-    if _pid in ("C02", "C11", "C16", "C17"):
+    if _pid in ("C02", "C11", "C16", "C17", "C18"):
         continue
     CLAIMED[_pid] = dict(category="exploration", text=_text, note=_note, technique=BOUNDED_TECH, ref="3/" + _pid)
 
@@ -195,6 +195,22 @@ CLAIMED["C17"] = dict(
     note=MATRIX_NOTE + "; equivalence of the posterior equation with the textbook Woodbury form, symmetry/PSD and 'no larger than the prior' "
          "are bounded only",
     ref="3/C17")
+
+CLAIMED["C18"] = dict(
+    text="Proof (d in {1,2[,3]}): in both evaluation branches ExpectedImprovement.__call__ equals sig (z Phi(z) + phi(z)) -- the closed form "
+         "of E[max(f - y_max, 0)] under N(mu, sig^2) -- and opt_func is minus its logarithm; the value-and-gradient form returns the same "
+         "objective and its gradient equals the symbolic derivative of that objective with d mu = dmu, d sig = dvar/(2 sig); the far-tail "
+         "ratio sqrt(pi/2) erfcx(-z/sqrt 2) is Phi/phi and satisfies the Mills equation, ln_pdf/normal_pdf/normal_cdf are the standard normal "
+         "log-density, density and distribution function; UCB = mu + kappa sig and MaxVariance = sig^2 with exact objectives and gradients; "
+         "update_gp sets the incumbent to max(y); add_evaluation appends exactly the new point/value/error, rebuilds the regressor from "
+         "that data, hands it to the acquisition function, grows every history by one and writes to no caller array. Bounded: quadrature "
+         "of the improvement, high-precision both branches and continuity at z=-3, finite-difference gradients, three propose/add rounds "
+         "with both optimisers inside the bounds.",
+    note="erf/erfcx/exp/log/sqrt uninterpreted with the axiom instances listed in the evidence (erfcx(x) = exp(x^2)(1-erf x), exp(a+b) = exp a exp b, "
+         "surds exact); E[max(f-y_max,0)] = sig(z Phi + phi) and EI > 0 (Mills bound) are textbook facts, assumed; the regressor is a ghost "
+         "under the C02/C16 contracts; the gradient proof is modular over the special functions (their derivative laws proved separately "
+         "for the real bodies); proposals inside the bounds rely on scipy's bounded optimisers and starting_positions: bounded only",
+    ref="3/C18")
 
 PENDING_REASON = "contracts for this property are not built yet in this revision (see DESIGN.md section 7); not claimed"
 
